@@ -127,6 +127,21 @@ func (s *Sim) Quiesce() {
 	s.quiet = true
 	s.tracef("quiesce begins")
 	s.finishProcs()
+	// a migration that was started is carried through (the caller of Upgrade
+	// retries until it succeeds)
+	for _, name := range sortedKeys(s.oracles.migrated) {
+		for try := 0; try < 4 && !s.oracles.migrated[name].upgraded; try++ {
+			if _, ok := s.Store.tables[KBSet][key(NS, name)]; !ok {
+				break
+			}
+			for i := range s.Cfg.Sets {
+				if s.Cfg.Sets[i].Name == name {
+					s.stepUpgrade(Step{K: "upgrade", A: i})
+				}
+			}
+			s.finishProcs()
+		}
+	}
 	if s.inc == nil {
 		s.newIncarnation()
 	}
